@@ -307,6 +307,7 @@ func (m *Machine) ptrTerm(v Val) *Term {
 			m.SetG(heapName(x.Elem, l), Store(m.heapArr(x.Elem, l), pt, nl[i]))
 		}
 		m.Heap[x.Cell] = &ForwardV{To: &SymPtrV{P: pt, Root: x.Elem, Elem: x.Elem}}
+		m.assumeFreshPtr(pt, x.Cell)
 		return pt
 	}
 	panic(unsupported(fmt.Sprintf("ptrTerm of %T", v)))
@@ -465,3 +466,49 @@ func leafIndex(t types.Type, path string) int {
 }
 
 func hasPrefix(s, p string) bool { return strings.HasPrefix(s, p) }
+
+
+// assumeFreshPtr: a newly allocated object is different from every pointer already held in a pointer sequence of the current state
+// (the cell id is new in this execution, and under the loop rule the havocked state stands for a real state reached BEFORE this allocation).
+func (m *Machine) assumeFreshPtr(pt *Term, cell int) {
+	// only an object allocated INSIDE the current iteration of every enclosing loop is new with respect to the havocked state
+	for _, f := range m.Frames {
+		for _, lc := range f.Loops {
+			if lc != nil && lc.Entered && lc.Havocked != nil && cell <= lc.MaxCell {
+				return
+			}
+		}
+	}
+	seen := map[string]bool{}
+	visit := func(v Val) {
+		sq, ok := v.(*SeqV)
+		if !ok || sq.Conc != nil || len(sq.Leaves) != 1 {
+			return
+		}
+		if _, isPtr := sq.Elem.Underlying().(*types.Pointer); !isPtr {
+			return
+		}
+		key := sq.Leaves[0].S + "|" + sq.Len.S
+		if seen[key] {
+			return
+		}
+		seen[key] = true
+		m.AssumeT(T(SBool, fmt.Sprintf("(forall ((j Int)) (! (=> (and (<= 0 j) (< j %s)) (not (= (select %s j) %s))) :pattern ((select %s j))))", sq.Len.S, sq.Leaves[0].S, pt.S, sq.Leaves[0].S)))
+	}
+	for _, f := range m.Frames {
+		for _, v := range f.Env {
+			visit(v)
+		}
+		for _, v := range f.Bind {
+			visit(v)
+		}
+	}
+	for _, v := range m.Heap {
+		visit(v)
+		if sv, ok := v.(*StructV); ok {
+			for _, fv := range sv.F {
+				visit(fv)
+			}
+		}
+	}
+}
